@@ -558,7 +558,7 @@ func (c *c20gChild) probe(n int) string {
 }
 
 func runC20G(run *common.Run) {
-	run.Rule = "GCS half of C20, emulator in child processes built with the race detector (memory and file store). Part 'fuzz': case = one hostile HTTP request - a valid template of every endpoint (bucket create/get/delete, media / multipart / resumable upload incl. chunk PUT/POST and status query, metadata GET, media GET in three URL forms incl. an object whose metadata says gzip but whose bytes are not, list, patch, delete, compose with source preconditions, rewrite, batch) perturbed structurally (parameters dropped / duplicated / junk / negative / huge, path segments dropped / duplicated / appended, bodies truncated, JSON type confusion incl. null sub-objects, multipart without boundary / one part / unterminated, Content-Range garbage, gzip header on non-gzip body, hostile proxy headers, unknown upload ids, damaged batch bodies) or at byte level on a raw TCP stream (bit flips, truncation, insertion, deletion incl. the HTTP framing) - followed by a probe (stored object intact, new upload + read succeed). Well-formed batches of 0-5 parts: one sub-response per part, each equal to the same request sent alone. Part 'mix': rounds of concurrent traffic (listing while deleting, same-name uploads/patches/deletes, bucket delete during uploads, concurrent chunks on one upload id, composes and copies). Monitors: child exit, 'http: panic serving' / panic / fatal text on its stderr, race-detector reports with a frame in the emulator, a complete HTTP response, JSON bodies parse, error statuses produced by the emulator carry the {error:{code,message}} envelope with code == status, request hang (client watchdog 60 s), probe. Non-trivial = case answered with a 4xx/5xx (fuzz) / well-formed batch with >= 2 parts / mix round; distinct by case."
+	run.Rule = "GCS half of C20, emulator in child processes built with the race detector (memory and file store). Part 'fuzz': case = one hostile HTTP request - a valid template of every endpoint (bucket create/get/delete, media / multipart / resumable upload incl. chunk PUT/POST and status query, metadata GET, media GET in three URL forms incl. an object whose metadata says gzip but whose bytes are not, list, patch, delete, compose with source preconditions, rewrite, batch) perturbed structurally (parameters dropped / duplicated / junk / negative / huge, path segments dropped / duplicated / appended, bodies truncated, JSON type confusion incl. null sub-objects, multipart without boundary / one part / unterminated, Content-Range garbage, gzip header on non-gzip body, hostile proxy headers, unknown upload ids, damaged batch bodies) or at byte level on a raw TCP stream (bit flips, truncation, insertion, deletion incl. the HTTP framing) - followed by a probe (stored object intact, new upload + read succeed). Well-formed batches of 0-5 parts: one sub-response per part, each equal to the same request sent alone. Part 'mix': rounds of concurrent traffic (listing while deleting, same-name uploads/patches/deletes, bucket delete during uploads, concurrent chunks on one upload id, copies and composes in opposite directions over one pair of objects). Monitors: child exit, 'http: panic serving' / panic / fatal text on its stderr, race-detector reports with a frame in the emulator, a complete HTTP response, JSON bodies parse, error statuses produced by the emulator carry the {error:{code,message}} envelope with code == status, request hang (client watchdog 60 s), probe. Non-trivial = case answered with a 4xx/5xx (fuzz) / well-formed batch with >= 2 parts / mix round; distinct by case."
 	run.Assumptions = []string{"net/http recovers handler panics per connection, so they are observed as 'http: panic serving' on the child's stderr plus a dropped connection", "raw byte streams that are not an HTTP request may be answered by closing the connection"}
 	scratch, err := os.MkdirTemp("", "verif-c20g-")
 	if err != nil {
@@ -854,7 +854,27 @@ func c20gMixRound(run *common.Run, ch *c20gChild, round int) string {
 	}
 	mb := "mixb"
 	ch.cl.CreateBucket(mb)
-	switch round % 4 {
+	switch round % 5 {
+	case 4: // copies and composes in opposite directions over the same pair of objects (lock-order hazards)
+		ch.cl.UploadMedia(mb, "x", "text/plain", []byte("xx"), false, nil)
+		ch.cl.UploadMedia(mb, "y", "text/plain", []byte("yy"), false, nil)
+		worker(func(cl *drive.Client, n int) *drive.Resp { return cl.Rewrite(mb, "x", mb, "y") })
+		worker(func(cl *drive.Client, n int) *drive.Resp { return cl.Rewrite(mb, "y", mb, "x") })
+		worker(func(cl *drive.Client, n int) *drive.Resp {
+			return cl.Compose(mb, "x", []byte(`{"sourceObjects":[{"name":"x"},{"name":"y"}],"destination":{"contentType":"text/plain"}}`), nil)
+		})
+		worker(func(cl *drive.Client, n int) *drive.Resp {
+			return cl.Compose(mb, "y", []byte(`{"sourceObjects":[{"name":"y"},{"name":"x"}],"destination":{"contentType":"text/plain"}}`), nil)
+		})
+		worker(func(cl *drive.Client, n int) *drive.Resp { return cl.Rewrite(mb, "x", mb, "x") })
+		worker(func(cl *drive.Client, n int) *drive.Resp {
+			// keep the objects small: composes double them
+			if n%5 == 0 {
+				cl.UploadMedia(mb, "x", "text/plain", []byte("xx"), false, nil)
+				return cl.UploadMedia(mb, "y", "text/plain", []byte("yy"), false, nil)
+			}
+			return cl.GetMeta(mb, "y")
+		})
 	case 0: // listing while uploading and deleting
 		worker(func(cl *drive.Client, n int) *drive.Resp { return cl.List(mb, [][2]string{{"delimiter", "/"}, {"maxResults", "3"}}) })
 		worker(func(cl *drive.Client, n int) *drive.Resp { return cl.List(mb, [][2]string{{"prefix", "d/"}}) })
